@@ -493,8 +493,8 @@ def check(run):
                        "Python 3.12 fromisoformat grammar restricted to calendar dates without time zone "
                        "(week dates are not generated)",
                        "a decimal comma is only generated together with the ';' delimiter (documented)"]
-    ngroups = 60 if run.tier == 'quick' else 1500
-    nmal = 150 if run.tier == 'quick' else 3000
+    ngroups = 60 if run.tier == 'quick' else 4000
+    nmal = 150 if run.tier == 'quick' else 8000
     cases = []
     for i in range(ngroups):
         kind = ['time', 'date', 'datetime'][i % 3]
